@@ -4,7 +4,7 @@ from tools.krun import Harness
 
 PROPERTY = "C15"
 PRELUDE = ["../common/base.rs", "prelude.rs"]
-R_ERR = Rw("", "verr()", count=None, kind="err", why="RusticError construction (kind/message/context dropped)")
+R_ERR = Rw("", "verr()", count=None, kind="err", optional=True, why="RusticError construction (kind/message/context dropped)")
 
 
 def guard(name, file, within, block_end, sig, pre, fn, wrap=False):
